@@ -30,7 +30,7 @@ For(vs, its, b) == [t |-> "for", vars |-> [i \in 1..Len(vs) |-> Nm(vs[i])], iter
 Ret(e) == [t |-> "ret", e |-> e]
 Yld(e) == [t |-> "yield", e |-> e]
 
-Prelude == << Asg("x", I(1)), Asg("a", Lst(<<I(1), I(2), I(3)>>)), Asg("f", Fn(<<"n">>, Bin("+", Nm("n"), I(1)))), Asg("id", Fn(<<"v">>, Nm("v"))) >>
+Prelude == << Asg("x", I(1)), Asg("a", Lst(<<I(1), I(2), I(3)>>)), Asg("f", Fn(<<"n">>, Bin("+", Bin("-", Bin("*", Nm("n"), I(2)), Nm("n")), I(1)))), Asg("id", Fn(<<"v">>, Nm("v"))) >>
 Atoms == << I(2), Nm("x"), Fl(3, 1), St(<<"a">>), Lst(<<I(1), I(2)>>), Call("f", <<I(1)>>), Nm("u"), Bo(TRUE), Nm("a") >>
 BinOps == <<"+", "-", "*", "/", "%", "==", "<", "&", "|", "<<">>
 UnOps == <<"-", "#", "!", "~">>
